@@ -644,6 +644,8 @@ func bigInputBurst(c *core.Ctx, tpl *textwire.Template, round int) {
 // compares what they returned with the same calls made sequentially afterwards
 func coldBurst(c *core.Ctx) {
 	srcs := []string{
+		// literals with characters that are escaped, with entities, with bytes outside ASCII
+		"{{ \"<b>&amp; \" + who }}{{ 'a & b' }}{{ \"x > y\".raw() }}{{ \"é中😀\" }}{{ \"\" }}",
 		"@each(i in items){{ i }}@end @if(gid)y@elseif(zero)n@else e@end {{-- c --}}@for(k = 0; k < 2; k++){{ k }}@end",
 		"@insert(\"a\", 1)@reserve(\"b\")@component(\"c\")@dump(gid) {{ who.upper() }}",
 		"x {{ who }}\n{{ gid / zero }}",
